@@ -1,19 +1,32 @@
 """C17 — integer and real vector individuals follow their operator definitions.
 
-Lean: GA/DE operators over explicit draws (Vita/C17/Model.lean), theorems in Vita/C17/Props.lean.
-Tie: relational – the harness executes the real i_ga / i_de operators (creation, mutation, two-point
-crossover, DE trial vector) on generated interval lists; every observed execution is decided by the
-compiled Lean driver (step relations; for DE: existence of ONE weight F in the configured interval
-explaining every mutant position bit-exactly, by interval intersection) and, independently, by the
-Python oracle below.
+Lean: the operators as EXTRACTED from the clang AST (tools/translate_gade.py -> Vita/C17/Gen.lean: ages, random.h,
+number<T>::init, i_ga constructor / mutation / crossover, i_de::crossover, the two recombination strategies),
+interpreted at their machine types (Vita/C17/Model.lean) and proved to be the specification functions
+(Vita/C17/Bridge.lean); the property theorems are in Vita/C17/Props.lean.
+
+Tie: (1) the translator, on every run; (2) relational – the harness executes the real operators (creation,
+mutation, two-point crossover, DE trial vector, recombination::base / recombination::de on real populations) on
+problems DECLARED through every public way the library offers, with individuals whose ages were produced through
+inc_age / load; every observed execution is decided by the compiled Lean driver against the interval / box /
+weight interval the REQUEST wrote (never the one the library recorded) and, independently, by the Python oracle
+below.
 """
 import json
+import math
 import os
 import struct
+import sys
 
 from vlib import common as C
 
+sys.path.insert(0, os.path.join(C.ROOT, "tools"))
+import translate_gade  # noqa: E402
+from cxx2lean import Refuse  # noqa: E402
+
 IMIN, IMAX = -(1 << 31), (1 << 31) - 1
+U32 = (1 << 32) - 1
+DBL_MAX = 1.7976931348623157e308
 
 
 def d2b(x):
@@ -37,27 +50,70 @@ def nextafter_up(x):
     return unkey(key(x) + 1)
 
 
+def is_float32(x):
+    try:
+        return struct.unpack("<f", struct.pack("<f", x))[0] == x
+    except (OverflowError, struct.error):
+        return False
+
+
+# ---- C++ types an endpoint can be written in (harness: 0 double 1 int 2 long 3 float 4 unsigned 5 short
+#      6 long long 7 size_t); the value must be exactly representable -------------------------------------------
+def types_for(v):
+    t = [0]
+    if v == int(v) and abs(v) < (1 << 53):
+        i = int(v)
+        if IMIN <= i <= IMAX:
+            t.append(1)
+        t += [2, 6]
+        if 0 <= i <= U32:
+            t.append(4)
+        if -32768 <= i <= 32767:
+            t.append(5)
+        if i >= 0:
+            t.append(7)
+    if is_float32(v):
+        t.append(3)
+    return t
+
+
+def pick_type(rng, v, plain):
+    """plain: the value type of the problem (int for GA, double for DE)"""
+    ts = types_for(v)
+    if rng.below(3) == 0 and plain in ts:
+        return plain
+    return rng.choice(ts)
+
+
 # ---- the property's own oracle (independent of the Lean model) ------------------------------------
-def in_range(rs, g):
-    return len(g) == len(rs) and all(lo <= v < hi for (lo, hi), v in zip(rs, g))
+def in_slot(slot, v):
+    return any(lo <= v < hi for _, lo, hi in slot)
 
 
-def oracle_gx(l, r, ch, ages):
-    bad = []
+def in_range(slots, g):
+    return len(g) == len(slots) and all(in_slot(s, v) for s, v in zip(slots, g))
+
+
+def segment_ok(l, r, ch):
     n = len(r)
     if len(ch) != n or len(l) != n:
-        return ["length"]
-    if ages[2] != max(ages[0], ages[1]):
-        bad.append("age")
-    okseg = False
+        return False
     for c1 in range(0, n):
         for c2 in range(c1 + 1, n + 1):      # the property: any contiguous non-empty segment [c1, c2)
             if all(ch[i] == (l[i] if c1 <= i < c2 else r[i]) for i in range(n)):
-                okseg = True
-                break
-        if okseg:
-            break
-    if not okseg:
+                return True
+    return False
+
+
+def oracle_gx(l, r, ch, ages, lived):
+    bad = []
+    if len(ch) != len(r) or len(l) != len(r):
+        return ["length"]
+    if ages[0] != lived[0] or ages[1] != lived[1]:
+        bad.append("parent-age-not-generations-lived")
+    if ages[2] != max(lived[0], lived[1]):
+        bad.append("age")
+    if not segment_ok(l, r, ch):
         bad.append("segment")
     return bad
 
@@ -73,14 +129,19 @@ def first_true(p, lo, hi):
     return lo
 
 
-def oracle_dx(p, wlo, whi, tg, a, b, c, tr, ages):
+def weight_keys(wlo, whi):
+    if wlo < whi:
+        return key(wlo), key(whi) - 1
+    return key(wlo), key(wlo)
+
+
+def de_form(p, wlo, whi, tg, a, b, c, tr):
+    """-> (bad list, (Fmin, Fmax) or None)"""
     n = len(tg)
-    if len(tr) != n:
+    if len(tr) != n or len(a) != n or len(b) != n or len(c) != n:
         return ["length"], None
     bad = []
-    if ages[4] != max(ages):
-        bad.append("age")
-    lo, hi = key(wlo), key(whi)
+    lo, hi = weight_keys(wlo, whi)
     for i in range(n):
         t = tr[i]
         forced = i == n - 1 or t != tg[i] or p >= 1.0
@@ -105,12 +166,28 @@ def oracle_dx(p, wlo, whi, tg, a, b, c, tr, ages):
     return bad, (unkey(lo), unkey(hi))
 
 
+def finite(xs):
+    return all(x == x and x not in (float("inf"), float("-inf")) for x in xs)
+
+
+def plausible(wlo, whi, tg, a, b, c, tr):
+    """cheap necessary condition used to prune the (a, b, c) search of the strategy-level oracle"""
+    n = len(tg)
+    d = a[n - 1] - b[n - 1]
+    if d == 0:
+        return tr[n - 1] == c[n - 1]
+    f = (tr[n - 1] - c[n - 1]) / d
+    span = max(abs(wlo), abs(whi), 1e-300)
+    tol = 1e-6 * span + 8 * math.ulp(max(abs(tr[n - 1]), abs(c[n - 1]))) / abs(d)   # rounding of c + F*d
+    return wlo - tol <= f <= whi + tol
+
+
 # ---- generators -------------------------------------------------------------------------------
-def int_ranges(rng, n):
-    kind = rng.below(7)
+def int_intervals(rng, n):
+    kind = rng.below(8)
     rs = []
     for i in range(n):
-        k = kind if kind < 6 else rng.below(6)
+        k = kind if kind < 7 else rng.below(7)
         if k == 0:
             lo = rng.between(-60, -5)
             rs.append((lo, lo + rng.between(1, 5)))
@@ -119,102 +196,296 @@ def int_ranges(rng, n):
             rs.append((lo, lo + 1))                       # width 1
         elif k == 2:
             rs.append(rng.choice([(IMIN, IMAX), (IMIN, 0), (0, IMAX), (-(1 << 30), 1 << 30), (IMAX - 2, IMAX),
-                                  (IMIN, IMIN + 2)]))
+                                  (IMIN, IMIN + 2), (-2000000000, 2000000000), (-5, IMAX), (IMIN + 1, 1000)]))
         elif k == 3:
             rs.append((0, rng.between(2, 12)))
         elif k == 4:
             lo = rng.between(-1000, 1000)
             rs.append((lo, lo + rng.between(1, 2000)))
+        elif k == 5:
+            lo = rng.between(-40000, 40000)
+            rs.append((lo, lo + rng.between(1, 70000)))   # around the 16-bit limits
         else:
             lo = rng.between(IMIN, IMAX - 1)
             rs.append((lo, rng.between(lo + 1, IMAX + 1)))
     return rs
 
 
-def real_ranges(rng, n):
-    kind = rng.below(7)
+FRACS = [0.25, 0.5, 0.75, 0.125, 0.0]
+
+
+def real_intervals(rng, n):
+    kind = rng.below(11)
     rs = []
     for i in range(n):
-        k = kind if kind < 6 else rng.below(6)
+        k = kind if kind < 10 else rng.below(10)
         if k == 0:
             lo = -rng.between(1, 1000) / 7.0
             rs.append((lo, lo + rng.between(1, 50) / 3.0))
         elif k == 1:
-            lo = rng.choice([1.0, -1.0, 0.1, 1e10, -2.5e-5])
-            rs.append((lo, nextafter_up(lo) if lo > 0 else unkey(key(lo) + rng.between(1, 4))))   # a few ulps wide
+            lo = rng.choice([1.0, -1.0, 0.1, 1e10, -2.5e-5, 0.5, -3.0])
+            rs.append((lo, nextafter_up(lo) if rng.below(2) else unkey(key(lo) + rng.between(1, 4))))   # few ulps
         elif k == 2:
-            rs.append(rng.choice([(-1e150, 1e150), (-1e100, 3e120), (1e140, 1e141), (-8e149, -1e-3)]))
+            rs.append(rng.choice([(-1e150, 1e150), (-1e100, 3e120), (1e140, 1e141), (-8e149, -1e-3),
+                                  (-1e16, 1.0), (-1e16, 1.5), (-9007199254740991.0, 0.6)]))
         elif k == 3:
-            rs.append(rng.choice([(-1e-300, 1e-300), (0.0, 5e-324 * 8), (-1e-9, 1e-9), (0.0, 1.0)]))
+            rs.append(rng.choice([(-1e-300, 1e-300), (0.0, 5e-324 * 8), (-1e-9, 1e-9), (0.0, 1.0),
+                                  (0.0, 2.2250738585072014e-308), (-5e-324, 5e-324)]))
         elif k == 4:
             rs.append((-5.12, 5.12))
-        else:
+        elif k == 5:
             lo = (rng.below(2001) - 1000) * 0.37
             rs.append((lo, lo + (rng.below(1000) + 1) * 0.013))
+        elif k == 6:                                       # integral first endpoint, fractional second one
+            lo = float(rng.between(-60, 20))
+            rs.append((lo, lo + rng.between(0, 6) + rng.choice(FRACS[:4])))
+        elif k == 7:                                       # both integral
+            lo = float(rng.between(-100, 100))
+            rs.append((lo, lo + rng.between(1, 50)))
+        elif k == 8:                                       # fractional first endpoint, integral second one
+            hi = float(rng.between(-60, 60))
+            rs.append((hi - rng.between(0, 6) - rng.choice(FRACS[:4]), hi))
+        else:                                              # width not representable
+            rs.append(rng.choice([(-DBL_MAX, DBL_MAX), (-1e308, 1e308), (-1.5e308, 1e307), (-1e307, 1.7e308)]))
     return rs
 
 
+def declare(rng, intervals, plain, extra_terminals):
+    """-> (pway, slots) ; slots = per category list of (way, lo, hi)"""
+    n = len(intervals)
+    uniform = all(r == intervals[0] for r in intervals)
+    choice = rng.below(10)
+    if choice == 0 and uniform:
+        return 1, [[(0, lo, hi)] for lo, hi in intervals]
+    if choice <= 2:
+        return 0, [[(0, lo, hi)] for lo, hi in intervals]
+    slots = []
+    for c, (lo, hi) in enumerate(intervals):
+        kind = rng.choice([0, 0, 1, 2, 3, 4, 5])
+        if kind == 4:
+            way = 400
+        else:
+            way = kind * 100 + pick_type(rng, lo, plain) * 10 + pick_type(rng, hi, plain)
+        slot = [(way, lo, hi)]
+        if extra_terminals is not None and rng.below(6) == 0:
+            for _ in range(1 + rng.below(2)):
+                slot.append((400,) + extra_terminals(rng))
+        slots.append(slot)
+    return 2, slots
+
+
+def slot_tokens(slots, enc):
+    return " ".join("%d:%d:%s:%s" % (c, w, enc(lo), enc(hi)) for c, s in enumerate(slots) for w, lo, hi in s)
+
+
+def header(slots, enc):
+    return " / ".join(" ".join("%s %s" % (enc(lo), enc(hi)) for _, lo, hi in s) for s in slots)
+
+
+def enc_i(v):
+    return "%d" % v
+
+
+def enc_d(v):
+    return "%d" % d2b(v)
+
+
+WEIGHTS = [(0.5, 1.0), (0.4, 0.4), (0.0, 2.0), (-1.0, 1.0), (1e-3, 1e3), (0.7, nextafter_up(0.7)), (-2.0, -0.5),
+           (0.9, 1.0), (2.5, 3.0), (-1.0, -0.5), (-3.0, -0.25), (2.0, 4.0), (3.0, 3.0), (-10.0, -9.25), (1.0, 2.75),
+           (-4.0, -2.0), (0.5, 0.5 + 2 ** -20)]
+
+
+def weight_token(rng, w):
+    kind = rng.below(6)
+    if kind == 4:
+        return "400:%d:%d" % (d2b(w[0]), d2b(w[1]))
+    ta = rng.choice([t for t in types_for(w[0]) if t in (0, 1, 2, 3)])
+    tb = rng.choice([t for t in types_for(w[1]) if t in (0, 1, 2, 3)])
+    return "%d:%d:%d" % (kind * 100 + ta * 10 + tb, d2b(w[0]), d2b(w[1]))
+
+
 def gen_requests(rng, tier):
+    """-> list of (request line, meta) ; meta carries what the REQUEST wrote"""
     q = tier == "quick"
     reqs = []
     lens = [2, 2, 3, 4, 5, 8, 13, 21, 40]
-    for _ in range(150 if q else 1500):
-        n = rng.choice(lens) if rng.below(2) else rng.between(2, 41)
-        rs = int_ranges(rng, n)
-        flat = " ".join("%d %d" % r for r in rs)
-        reqs.append("gc %d %d %s" % (rng.below(1 << 31), 8, flat))
-        reqs.append("gseq %d %d %d %s" % (rng.below(1 << 31), rng.next(), 40 if q else 80, flat))
-    weights = [(0.5, 1.0), (0.4, 0.4), (0.0, 2.0), (-1.0, 1.0), (1e-3, 1e3), (0.7, nextafter_up(0.7)), (-2.0, -0.5),
-               (0.9, 1.0)]
     probs = [0.0, 0.1, 0.5, 0.9, 1.0]
-    for _ in range(150 if q else 1500):
+
+    def extra_int(rng):
+        lo = rng.between(-100000, 100000)
+        return (lo, lo + rng.between(1, 50))
+
+    def extra_real(rng):
+        lo = rng.between(-1000, 1000) / 8.0
+        return (lo, lo + rng.between(1, 40) / 8.0)
+
+    for k in range(120 if q else 1200):
         n = rng.choice(lens) if rng.below(2) else rng.between(2, 41)
-        rs = real_ranges(rng, n)
-        flat = " ".join("%d %d" % (d2b(a), d2b(b)) for a, b in rs)
-        reqs.append("dc %d %d %s" % (rng.below(1 << 31), 8, flat))
-        w = rng.choice(weights)
+        pway, slots = declare(rng, int_intervals(rng, n), 1, extra_int)
+        tok = slot_tokens(slots, enc_i)
+        meta = {"kind": "ga", "slots": slots}
+        reqs.append(("gc %d %d %d %s" % (rng.below(1 << 31), 6, pway, tok), meta))
+        reqs.append(("gseq %d %d %d %d %s" % (rng.below(1 << 31), rng.next(), 30 if q else 60, pway, tok), meta))
+        if k % 2 == 0:
+            pc, pm, brood = rng.choice(probs), rng.choice([0.0, 0.0, 0.05, 0.3, 1.0]), rng.choice([1, 1, 2, 3])
+            space = 1
+            for s in slots:
+                space = min(space * sum(hi - lo for _, lo, hi in s), 1000)
+            if space < 4:
+                # fewer than four possible genomes: the signature-repulsion loop of base::run (`while the child
+                # equals one of its parents: mutate`) may never find a genome different from both parents
+                pm = 0.0
+            m2 = dict(meta, pc=pc, pm=pm, brood=brood)
+            reqs.append(("gstr %d %d %d %d %d %d %d %s" % (rng.below(1 << 31), rng.next(), 8 if q else 16, d2b(pc),
+                                                         d2b(pm), brood, pway, tok), m2))
+    for k in range(120 if q else 1200):
+        n = rng.choice(lens) if rng.below(2) else rng.between(2, 41)
+        rs = real_intervals(rng, n)
+        pway, slots = declare(rng, rs, 0, extra_real if rng.below(3) == 0 else None)
+        tok = slot_tokens(slots, enc_d)
+        meta = {"kind": "de", "slots": slots}
+        reqs.append(("dc %d %d %d %s" % (rng.below(1 << 31), 6, pway, tok), meta))
+        w = rng.choice(WEIGHTS)
         p = rng.choice(probs)
+        m2 = dict(meta, p=p, w=w)
         for mode in (0, 1):
-            reqs.append("dx %d %d %d %d %d %d %d %s" % (rng.below(1 << 31), rng.next(), 6 if q else 10, d2b(p),
-                                                        d2b(w[0]), d2b(w[1]), mode, flat))
+            reqs.append(("dx %d %d %d %d %s %d %d %s" % (rng.below(1 << 31), rng.next(), 4 if q else 8, d2b(p),
+                                                         weight_token(rng, w), mode, pway, tok), m2))
+        if k % 2 == 0 and n <= 21:
+            w = rng.choice(WEIGHTS)
+            m3 = dict(meta, p=p, w=w)
+            reqs.append(("dstr %d %d %d %d %s %d %d %s" % (rng.below(1 << 31), rng.next(), 5 if q else 10, d2b(p),
+                                                           weight_token(rng, w), rng.below(2), pway, tok), m3))
+        if k % 6 == 0:
+            flat = " ".join("%d %d" % (d2b(lo), d2b(hi)) for lo, hi in rs[:8])
+            reqs.append(("laws " + flat, {"kind": "laws"}))
+    fixed = [(1.0, 2.0), (0.5, 1.0), (-1e16, 1.5), (0.1, nextafter_up(0.1)), (0.0, 2.2250738585072014e-308),
+             (0.0, 5e-324), (-5e-324, 5e-324), (-3.0, -0.5), (-DBL_MAX, DBL_MAX), (1.0, 1.0 + 2 ** -52 * 3)]
+    reqs.append(("laws " + " ".join("%d %d" % (d2b(lo), d2b(hi)) for lo, hi in fixed), {"kind": "laws"}))
     return reqs
 
 
-def corrupt(step, rng):
-    """negative control: damage an observed step so that the property fails on it"""
-    f = step.split(" | ")
+# ---- from a request line back to what it wrote (replays, corpus) --------------------------------------------------
+def parse_slots(tokens, dec):
+    slots = []
+    for t in tokens:
+        c, w, lo, hi = t.split(":")
+        c = int(c)
+        while len(slots) <= c:
+            slots.append([])
+        slots[c].append((int(w), dec(lo), dec(hi)))
+    return slots
+
+
+def meta_of(req):
+    t = req.split()
+    di = lambda s: int(s)                  # noqa: E731
+    dd = lambda s: b2d(int(s))             # noqa: E731
+    if t[0] == "gc":
+        return {"kind": "ga", "slots": parse_slots(t[4:], di)}
+    if t[0] == "gseq":
+        return {"kind": "ga", "slots": parse_slots(t[5:], di)}
+    if t[0] == "gstr":
+        return {"kind": "ga", "slots": parse_slots(t[8:], di), "pc": b2d(int(t[4])), "pm": b2d(int(t[5])),
+                "brood": int(t[6])}
+    if t[0] == "dc":
+        return {"kind": "de", "slots": parse_slots(t[4:], dd)}
+    if t[0] in ("dx", "dstr"):
+        w = t[5].split(":")
+        return {"kind": "de", "slots": parse_slots(t[8:], dd), "p": b2d(int(t[4])),
+                "w": (b2d(int(w[1])), b2d(int(w[2])))}
+    return {"kind": "laws"}
+
+
+# ---- driver lines -----------------------------------------------------------------------------------------------
+def driver_line(meta, f, pop):
+    """f = fields of one harness step (split on ' | '); -> the line for the Lean driver (None: POP)"""
+    op = f[0]
+    if op == "AG":
+        return "AG " + f[1]
+    if op == "LW":
+        return "LW " + " | ".join(f[1:])
+    if op == "GM":
+        return op + " " + header(meta["slots"], enc_i) + " | " + " | ".join(f[1:5])      # f[5] = the probability
+    if op in ("GC", "GX"):
+        return op + " " + header(meta["slots"], enc_i) + " | " + " | ".join(f[1:])
+    if op == "DC":
+        return "DC " + header(meta["slots"], enc_d) + " | " + " | ".join(f[1:])
+    if op == "DX":
+        return "DX %d %d %d | " % (d2b(meta["p"]), d2b(meta["w"][0]), d2b(meta["w"][1])) + " | ".join(f[1:])
+    if op == "GS":
+        ps = [int(x) for x in f[1].split()]
+        g, _, lived = pop
+        cands = [ps[1]] if len(ps) > 1 else list(range(len(g)))
+        return ("GS " + header(meta["slots"], enc_i) + " | %d %d %d | " % (d2b(meta["pc"]), d2b(meta["pm"]),
+                                                                         meta["brood"])
+                + g[ps[0]] + " | " + " ; ".join(g[c] for c in cands) + " | " + f[2] + " | " + lived[ps[0]] + " | "
+                + " ".join(lived[c] for c in cands) + " | " + f[3] + " | " + f[4])
+    if op == "DS":
+        ps = [int(x) for x in f[1].split()]
+        g, _, lived = pop
+        cands = [ps[1]] if len(ps) > 1 else list(range(len(g)))
+        return ("DS %d %d %d | " % (d2b(meta["p"]), d2b(meta["w"][0]), d2b(meta["w"][1]))
+                + g[ps[0]] + " | " + " ; ".join(g[c] for c in cands) + " | " + " ; ".join(g) + " | " + f[2] + " | "
+                + lived[ps[0]] + " | " + " ".join(lived[c] for c in cands) + " | " + " ".join(lived) + " | " + f[3])
+    return None
+
+
+def corrupt(line, rng):
+    """negative control: damage a driver line so that the property fails on it"""
+    f = line.split(" | ")
     op = f[0].split()[0]
     if op == "GC":
-        rs = f[0].split()[1:]
+        slots = f[0][3:].split(" / ")
         g = f[1].split()
         j = rng.below(len(g))
-        g[j] = rs[2 * j + 1]                      # gene = open end of its interval
+        his = slots[j].split()[1::2]
+        g[j] = str(max(int(x) for x in his))          # gene = open end of its (largest) interval
         f[1] = " ".join(g)
     elif op == "GX":
-        ch = f[3].split()
-        l, r = f[1].split(), f[2].split()
-        j = len(ch) - 1                           # the last position never comes from lhs
-        if l[j] == r[j]:
-            return None
-        ch[j] = l[j]
-        f[3] = " ".join(ch)
+        if rng.below(2):
+            ch = f[3].split()
+            l, r = f[1].split(), f[2].split()
+            j = len(ch) - 1                           # the last position never comes from lhs
+            if l[j] == r[j]:
+                return None
+            ch[j] = l[j]
+            f[3] = " ".join(ch)
+        else:
+            e = f[4].split()
+            if e[0] == e[1]:
+                return None
+            e[2] = str(min(int(e[0]), int(e[1])))     # the YOUNGER parent's age
+            f[4] = " ".join(e)
     elif op == "GM":
         e = f[3].split()
-        e[0] = str(int(e[0]) + 1)                 # wrong count of changed genes
+        e[0] = str(int(e[0]) + 1)                     # wrong count of changed genes
         f[3] = " ".join(e)
+    elif op == "AG":
+        e = f[0].split()
+        e[5] = str((int(e[5]) + 65536) % (1 << 32)) if rng.below(2) else str(int(e[5]) % 65536 + 1)
+        if e[5] == e[4]:
+            return None
+        f[0] = " ".join(e)
     elif op == "DX":
         if rng.below(2):
             e = f[6].split()
-            e[4] = str(int(e[4]) + 1)             # age is not the maximum
+            e[4] = str(int(e[4]) + 1)                 # age is not the maximum
             f[6] = " ".join(e)
         else:
-            f[5] = " ".join(f[5].split()[:-1])    # a gene is missing
+            f[5] = " ".join(f[5].split()[:-1])        # a gene is missing
     elif op == "DC":
-        rs = f[0].split()[1:]
+        slots = f[0][3:].split(" / ")
         g = f[1].split()
         j = rng.below(len(g))
-        g[j] = str(d2b(nextafter_up(b2d(int(rs[2 * j + 1])))))
+        g[j] = str(d2b(max(b2d(int(x)) for x in slots[j].split()[1::2])))   # gene = open end of its interval
         f[1] = " ".join(g)
+    elif op == "GS":
+        f[7] = str(max(int(x) for x in (f[5] + " " + f[6]).split()) + 1)   # offspring older than every candidate parent
+    elif op == "DS":
+        f[8] = str(max(int(x) for x in f[7].split()) + 1)
+    else:
+        return None
     return " | ".join(f)
 
 
@@ -222,15 +493,35 @@ def run(chk, replay=None):
     rng = C.SplitMix(chk.seed)
     broken = []
 
+    # ---- translator: the model is regenerated from the AST of the current tree -------------------------------
+    gen = os.path.join(C.LEAN, "Vita", "C17", "Gen.lean")
+    translated = False
+    try:
+        o, changed = translate_gade.emit(gen)
+        translated = True
+        chk.cov["translated"] = sorted(o)
+        chk.cov["gen_changed_vs_committed"] = bool(changed)
+    except Refuse as e:
+        broken.append("translator tools/translate_gade.py refuses the current sources (the extracted model no longer "
+                      "describes the code): %s" % e)
+
     ok, msg = chk.prove("Vita.C17.Props", ["Vita.C17.Props", "c17_driver"])
     drv_ok = True
     if not ok:
-        broken.append("theorems of Vita.C17.Props no longer check: " + msg)
+        broken.append("theorems of Vita.C17.Props no longer check against the generated terms: " + msg)
         drv_ok, out = C.lake_build(["c17_driver"])
         if not drv_ok:
             broken.append("c17_driver does not build: " + C.lean_errors(out))
+    elif not translated:
+        chk.discharged = 0
 
-    exe = C.build_harness("c17_gade", "asan")
+    try:
+        exe = C.build_harness("c17_gade", "asan")
+    except RuntimeError as e:
+        chk.violation("the harness (which declares intervals through every public way: vita::range with same-type "
+                      "and mixed-type arguments, std::pair, make_pair, …) no longer compiles against the library: "
+                      + str(e)[-1500:], {"broken": "harness build"}, no_input=True)
+        return chk.finish(level="proof", checker_cmd="(harness build failed)", rule="-")
 
     corpus = []
     cdir = os.path.join(C.ROOT, "corpus", "C17")
@@ -238,123 +529,257 @@ def run(chk, replay=None):
         for f in sorted(os.listdir(cdir)):
             corpus += [ln.strip() for ln in open(os.path.join(cdir, f)) if ln.strip() and not ln.startswith("#")]
     if replay:
-        reqs = [json.load(open(replay))["replay"]["request"]]
+        r = json.load(open(replay))["replay"]["request"]
+        reqs = [(r, meta_of(r))]
     else:
-        reqs = corpus + gen_requests(rng, chk.tier)
+        reqs = [(r, meta_of(r)) for r in corpus] + gen_requests(rng, chk.tier)
 
-    answers, deaths = C.run_lines(exe, reqs, timeout=900)
+    answers, deaths = C.run_lines(exe, [r for r, _ in reqs], timeout=1500)
     for idx, rc, se in deaths:
         chk.violation("harness died (rc=%d, sanitizer report or crash) on request `%s`\n%s"
-                      % (rc, reqs[idx][:300], se[-1500:]),
-                      {"request": reqs[idx]}, tags={"kind": reqs[idx].split()[0], "clause": "died"})
+                      % (rc, reqs[idx][0][:300], se[-1500:]),
+                      {"request": reqs[idx][0]}, tags={"kind": reqs[idx][0].split()[0], "clause": "died"})
 
-    steps = []
+    steps = []          # (request index, fields, driver line)
     for i, a in enumerate(answers):
         if a.startswith(("died", "skipped")):
             continue
         if a.startswith(("bad-request", "exception")):
-            broken.append("harness answered `%s` to `%s`" % (a[:200], reqs[i][:200]))
+            broken.append("harness answered `%s` to `%s`" % (a[:200], reqs[i][0][:200]))
             continue
+        pop = None
         for part in a.split(" ;; "):
-            st, _, extra = part.partition(" ## ")
-            steps.append((i, st, extra.strip()))
+            f = part.split(" | ")
+            if f[0] == "POP":
+                pop = ([x.strip() for x in f[1].split(";")], f[2].split(), f[3].split())
+                continue
+            steps.append((i, f, driver_line(reqs[i][1], f, pop), pop))
 
     controls = []
     for k in range(0, len(steps), 5):
-        c = corrupt(steps[k][1], rng)
-        if c is not None:
-            controls.append(c)
-    malformed = ["", "GC 1 2", "GX 0 1 | 1 | 2", "DX 1 2 3 | 1 | 2 | 3 | 4 | 5", "GC 0 x | 1", "ZZ 1 | 2",
-                 "GM 0 9 | 1 | 1 | 0 0", "DC 1 | 2"]
-    dlines = [s for _, s, _ in steps] + controls + malformed
-    have_driver = drv_ok
+        if steps[k][2] is not None:
+            c = corrupt(steps[k][2], rng)
+            if c is not None:
+                controls.append(c)
+    malformed = ["", "GC 1 2", "GX 0 1 | 1 | 2", "DX 1 2 3 | 1 | 2 | 3 | 4 | 5", "GC 0 x | 1 | 0", "ZZ 1 | 2",
+                 "GM 0 9 | 1 | 1 | 0 0", "DC 1 | 2", "AG inc 0 1", "GS 0 1 | 1 | 2"]
+    dlines = [s[2] for s in steps] + controls + malformed
     dout = C.run_driver("c17_driver", dlines) if drv_ok else ["n/a"] * len(dlines)
     if len(dout) != len(dlines):
         broken.append("driver answered %d lines for %d requests" % (len(dout), len(dlines)))
 
     found = []
-    at_hi = at_lo = nanskips = 0
+    failed_requests = set()
+    nanskips = 0
+    at_lo = 0
+    law_athi = 0
     fwidth = {"point": 0, "<=4ulp": 0, "wide": 0}
-    for (i, st, extra), d in zip(steps, dout):
-        f = st.split(" | ")
-        hd = f[0].split()
-        op = hd[0]
-        chk.seen(st)
+    for (i, f, dl, pop), d in zip(steps, dout):
+        req, meta = reqs[i]
+        op = f[0]
+        chk.seen(dl)
         chk.count("op:" + op)
         bad = []
         size = 0
-        if op in ("GC", "GM", "GX"):
-            v = [int(x) for x in hd[1:]]
-            rs = list(zip(v[0::2], v[1::2]))
-            size = len(rs)
+        if op == "AG":
+            e = f[1].split()
+            if e[0] == "load-failed":
+                bad.append("load-failed")
+            else:
+                lived, obs = int(e[3]), int(e[4])
+                size = 1
+                mag = ("<2^8" if lived < 250 else "~2^8" if lived < 300 else "~2^16" if 65000 < lived < 66000 else
+                       "~2^31" if abs(lived - (1 << 31)) < 100 else "~2^32" if lived > U32 - 100 else "other")
+                chk.count("age_via_%s:%s" % (e[0], mag))
+                if obs != lived:
+                    bad.append("age-not-generations-lived")
+        elif op in ("GC", "GM", "GX", "GS"):
+            slots = meta["slots"]
+            size = len(slots)
             chk.count("len:%s" % ("2-5" if size <= 5 else "6-20" if size <= 20 else "21-40"))
             if op == "GC":
                 g = [int(x) for x in f[1].split()]
-                if not in_range(rs, g):
+                for s in slots:
+                    for w, _, _ in s:
+                        chk.count("ga_declared_by:kind%d" % (w // 100))
+                    if len(s) > 1:
+                        chk.count("category_with_several_terminals")
+                if not in_range(slots, g):
                     bad.append("range")
-                if extra != "0":
+                if f[2] != "0":
                     bad.append("age")
             elif op == "GM":
                 pre, post = [int(x) for x in f[1].split()], [int(x) for x in f[2].split()]
                 ret, a0, a1 = [int(x) for x in f[3].split()]
-                p = b2d(int(extra))
+                l0 = int(f[4])
+                p = b2d(int(f[5]))
                 chk.count("mut_p:%g" % p)
                 if len(pre) != len(post):
                     bad.append("length")
-                if not in_range(rs, post):
+                if not in_range(slots, post):
                     bad.append("range")
                 if ret != sum(1 for x, y in zip(pre, post) if x != y):
                     bad.append("count")
-                if a0 != a1:
+                if a0 != l0 or a1 != l0:
                     bad.append("age")
                 if p == 0.0 and pre != post:
                     bad.append("p0-changed")
                 if ret:
                     chk.count("mut_changed")
-            else:
+            elif op == "GX":
                 l, r, ch = ([int(x) for x in f[k].split()] for k in (1, 2, 3))
                 ages = [int(x) for x in f[4].split()]
-                bad += oracle_gx(l, r, ch, ages)
-                if not in_range(rs, ch):
+                lived = [int(x) for x in f[5].split()]
+                bad += oracle_gx(l, r, ch, ages, lived)
+                if not in_range(slots, ch):
                     bad.append("range")
                 if l != r and ch != r:
                     chk.count("xo_visible_segment")
+                if max(lived) > 65535:
+                    chk.count("xo_parent_older_than_2^16")
+            else:
+                if f[1].startswith("wrong-number"):
+                    bad.append("offspring-count")
+                else:
+                    ps = [int(x) for x in f[1].split()]
+                    g, ages, lived = pop
+                    off = [int(x) for x in f[2].split()]
+                    age_off = int(f[3])
+                    dc, dm = [int(x) for x in f[4].split()]
+                    G = [[int(x) for x in y.split()] for y in g]
+                    L = [int(x) for x in lived]
+                    cands = [ps[1]] if len(ps) > 1 else list(range(len(G)))
+                    chk.count("gs:%s" % ("crossover" if dc else "copy"))
+                    chk.count("gs_parents:%d" % len(ps))
+                    if not in_range(slots, off):
+                        bad.append("range")
+                    if meta["pc"] == 1.0 and dc == 0 or meta["pc"] == 0.0 and dc != 0:
+                        bad.append("p_cross-extreme")
+                    if meta["pm"] == 0.0 and dm != 0:
+                        bad.append("p_mutation-zero")
+                    if dc:
+                        if dc != meta["brood"]:
+                            bad.append("brood")
+                        if not any(age_off == max(L[ps[0]], L[c]) and len(off) == len(G[c]) and
+                                   (dm != 0 or segment_ok(G[ps[0]], G[c], off)) for c in cands):
+                            bad.append("age" if not any(age_off == max(L[ps[0]], L[c]) for c in cands) else "segment")
+                    else:
+                        if not any(age_off == L[c] and len(off) == len(G[c]) and
+                                   sum(1 for x, y in zip(G[c], off) if x != y) == dm for c in [ps[0]] + cands):
+                            bad.append("copy-mutation")
         elif op == "DC":
-            v = [b2d(int(x)) for x in hd[1:]]
-            rs = list(zip(v[0::2], v[1::2]))
-            size = len(rs)
+            slots = meta["slots"]
+            size = len(slots)
             g = [b2d(int(x)) for x in f[1].split()]
-            if len(g) != len(rs) or not all(lo <= x <= hi for (lo, hi), x in zip(rs, g)):
+            for s in slots:
+                for w, lo, hi in s:
+                    chk.count("de_declared_by:kind%d" % (w // 100))
+                    if (w // 10) % 10 != w % 10:
+                        chk.count("de_mixed_type_endpoints")
+                    if hi < 0 and hi != int(hi) and (w // 10) % 10 in (1, 2, 5, 6) and w // 100 in (0, 1, 5):
+                        chk.count("vita::range(integral, negative fraction)")
+                    if hi - lo == float("inf"):
+                        chk.count("box_width_not_representable")
+            if len(g) != len(slots) or not all(in_slot(s, x) for s, x in zip(slots, g)):
                 bad.append("box")
-            at_hi += sum(1 for (lo, hi), x in zip(rs, g) if x == hi)
-            at_lo += sum(1 for (lo, hi), x in zip(rs, g) if x == lo)
-            if extra != "0":
+            at_lo += sum(1 for s, x in zip(slots, g) if any(x == lo for _, lo, _ in s))
+            if f[2] != "0":
                 bad.append("age")
         elif op == "DX":
-            p, wlo, whi = (b2d(int(x)) for x in hd[1:4])
+            p, (wlo, whi) = meta["p"], meta["w"]
             tg, a, b, c, tr = ([b2d(int(x)) for x in f[k].split()] for k in (1, 2, 3, 4, 5))
             ages = [int(x) for x in f[6].split()]
+            lived = [int(x) for x in f[7].split()]
             size = len(tg)
             chk.count("de_p:%g" % p)
-            vals = tg + a + b + c + tr
-            if any(x != x or x in (float("inf"), float("-inf")) for x in vals):
+            chk.count("de_weight:[%g,%g)" % (wlo, whi))
+            if ages[:4] != lived:
+                bad.append("parent-age-not-generations-lived")
+            if ages[4] != max(lived):
+                bad.append("age")
+            if not finite(tg + a + b + c + tr):
                 nanskips += 1
             else:
-                b2, Fs = oracle_dx(p, wlo, whi, tg, a, b, c, tr, ages)
+                b2, Fs = de_form(p, wlo, whi, tg, a, b, c, tr)
                 bad += b2
                 if Fs:
                     w = key(Fs[1]) - key(Fs[0])
                     fwidth["point" if w == 0 else "<=4ulp" if w <= 4 else "wide"] += 1
                 nm = sum(1 for x, y in zip(tr[:-1], tg[:-1]) if x != y)
                 chk.count("de_mutant_positions:%s" % ("0" if nm == 0 else "some" if nm < size - 1 else "all"))
+        elif op == "DS":
+            if f[1].startswith("wrong-number"):
+                bad.append("offspring-count")
+            else:
+                p, (wlo, whi) = meta["p"], meta["w"]
+                ps = [int(x) for x in f[1].split()]
+                g, ages, lived = pop
+                G = [[b2d(int(x)) for x in y.split()] for y in g]
+                L = [int(x) for x in lived]
+                off = [b2d(int(x)) for x in f[2].split()]
+                age_off = int(f[3])
+                size = len(off)
+                chk.count("ds_parents:%d" % len(ps))
+                chk.count("ds_weight:[%g,%g)" % (wlo, whi))
+                if [int(x) for x in ages] != L:
+                    bad.append("parent-age-not-generations-lived")
+                cands = [ps[1]] if len(ps) > 1 else list(range(len(G)))
+                tg = G[ps[0]]
+                okk = False
+                sawnan = not finite(off)
+                agematch = False
+                for prune in (True, False):        # the pruning is only a shortcut: a failure is confirmed without it
+                    for ia in cands:
+                        for ib in range(len(G)):
+                            for ic in range(len(G)):
+                                if age_off != max(L[ps[0]], L[ia], L[ib], L[ic]):
+                                    continue
+                                agematch = True
+                                if not finite(tg + G[ia] + G[ib] + G[ic] + off):
+                                    sawnan = True
+                                    continue
+                                if prune and not plausible(wlo, whi, tg, G[ia], G[ib], G[ic], off):
+                                    continue
+                                b2, Fs = de_form(p, wlo, whi, tg, G[ia], G[ib], G[ic], off)
+                                if not b2:
+                                    okk = True
+                                    break
+                            if okk:
+                                break
+                        if okk:
+                            break
+                    if okk or sawnan:
+                        break
+                if sawnan and not okk:
+                    nanskips += 1
+                elif not okk:
+                    bad.append("no-(a,b,c,F)-explains-the-offspring" if agematch else "age")
+        elif op == "LW":
+            lo, hi = (b2d(int(x)) for x in f[1].split())
+            w = b2d(int(f[2]))
+            size = 1
+            if w != hi - lo:
+                broken.append("IEEE: harness width differs from CPython's for %r" % ((lo, hi),))
+            for row in f[3].split(" ; "):
+                u, y, x = (b2d(int(v)) for v in row.split())
+                same = lambda p_, q_: p_ == q_ or (p_ != p_ and q_ != q_)      # noqa: E731
+                if not same(y, u * w) or not same(x, lo + y):
+                    broken.append("IEEE: harness arithmetic differs from CPython's at %r u=%r" % ((lo, hi), u))
+                if w != float("inf") and not (lo <= x <= hi and 0 <= y <= w):
+                    bad.append("ieee-law")
+                if x == hi:
+                    law_athi += 1
         tags = {"kind": op, "clause": " ".join(bad)}
-        if bad:
+        if bad and i in failed_requests:
+            pass            # a later step of a request whose history already left the property: a consequence
+        elif bad:
+            failed_requests.add(i)
             found.append((size, "%s: the observed execution breaks the property (%s) – request `%s`; step: %s"
-                          % (op, " ".join(bad), reqs[i][:300], st[:700]),
-                          {"request": reqs[i], "step": st, "oracle": bad, "driver": d}, tags))
+                          % (op, " ".join(bad), req[:400], (dl or "")[:700]),
+                          {"request": req, "step": dl, "oracle": bad, "driver": d}, tags))
         if d.startswith("ok"):
             if bad:
-                broken.append("oracle reports %s but the Lean step relation accepts: %s" % (bad, st[:300]))
+                broken.append("oracle reports %s but the Lean step relation accepts: %s" % (bad, (dl or "")[:300]))
         elif d == "nan":
             pass
         elif d != "n/a" and not bad:
@@ -362,13 +787,13 @@ def run(chk, replay=None):
             # the model no longer describes the code – reported without a failing input
             if len(broken) < 5:
                 broken.append("%s: observed execution rejected by the Lean step relation (%s) although the property "
-                              "holds on it – request `%s`; step: %s" % (op, d, reqs[i][:300], st[:500]))
-        if len(chk.cov["samples"]) < 5 and size <= 4 and chk.evaluations % 7 == 0:
-            chk.sample({"request": reqs[i][:200], "step": st, "driver": d})
-    for _, what, rep, tags in sorted(found, key=lambda x: (x[0], x[1])):
+                              "holds on it – request `%s`; step: %s" % (op, d, req[:300], (dl or "")[:500]))
+        if len(chk.cov["samples"]) < 6 and 0 < size <= 4 and chk.evaluations % 11 == 0:
+            chk.sample({"request": req[:200], "step": (dl or "")[:300], "driver": d})
+    for _, what, rep, tags in sorted(found, key=lambda x: (x[0], x[1]))[:40]:
         chk.violation(what, rep, tags=tags)
 
-    if have_driver:
+    if drv_ok:
         base = len(steps)
         rej = sum(1 for d in dout[base:base + len(controls)] if d.startswith("bad"))
         chk.cov["negative_controls"] = {"sent": len(controls), "rejected": rej}
@@ -380,27 +805,34 @@ def run(chk, replay=None):
         chk.cov["malformed_lines"] = {"sent": len(malformed), "refused": sum(1 for d in mal if d.startswith("bad"))}
         if any(not d.startswith("bad") for d in mal):
             broken.append("the driver accepted a malformed line: %r" % (mal,))
-    chk.cov["real_genes_at_upper_bound"] = at_hi
     chk.cov["real_genes_at_lower_bound"] = at_lo
+    chk.cov["ieee_law_rows_reaching_upper_bound_before_clamp"] = law_athi
     chk.cov["de_steps_skipped_nan_inf"] = nanskips
     chk.cov["de_admissible_F_interval"] = fwidth
     chk.cov["requests"] = len(reqs)
 
     if broken and not [v for v in chk.violations if not v[2]]:
-        for b in broken:
+        for b in broken[:6]:
             chk.violation(b, {"broken": b, "searched": "%d requests / %d observed executions: none violating the "
                               "property" % (len(reqs), len(steps))}, no_input=True)
     elif broken:
-        chk.notes += broken
+        chk.notes += broken[:10]
+    chk.assumptions += [
+        "IEEE-754 facts are hypotheses of the theorems (structure Rounding: monotone idempotent rounding, u <= umax < 1, "
+        "absorbed product => exact width, nextafter inside the interval); instances are evaluated on hardware doubles "
+        "by the `laws` requests and recomputed by the Lean driver and CPython",
+        "std::uniform_int_distribution / bernoulli_distribution honour their range contracts (draws are arbitrary "
+        "values of the range); libstdc++'s uniform_int algorithm itself: int_draw_in_range"]
     return chk.finish(
         level="proof",
-        checker_cmd="lake build Vita.C17.Props c17_driver && lake env lean <#print axioms for every theorem>",
-        rule="one evaluation = one observed execution of i_ga(problem) / mutation / crossover / i_de(problem) / "
-             "i_de::crossover (distinct = distinct (operator, inputs, result)); each is decided by the Lean step "
-             "relation (DE: one F in the weight interval by interval intersection over double bit patterns) and by "
-             "the Python oracle",
-        trusted=["Lean 4.33 kernel", "harness/c17_gade.cc (observation)",
-                 "std::uniform_int_distribution / uniform_real_distribution / bernoulli_distribution honour their "
-                 "range contracts (modelled as arbitrary draws inside the range)",
+        checker_cmd="python3 tools/translate_gade.py && lake build Vita.C17.Props c17_driver && lake env lean <#print "
+                    "axioms for every theorem>",
+        rule="one evaluation = one observed execution (i_ga(problem) / mutation / crossover / recombination::base::run / "
+             "i_de(problem) / i_de::crossover / recombination::de::run / an age produced by inc_age or load / an IEEE law "
+             "instance); distinct = distinct (operator, declared intervals, inputs, result); each is decided by the "
+             "Lean driver against the intervals the request wrote and by the Python oracle",
+        trusted=["Lean 4.33 kernel", "tools/translate_gade.py + clang-14 JSON AST (syntax only; refuses unknown shapes)",
+                 "harness/c17_gade.cc (observation; declares intervals the way a user would)",
+                 "int -> double -> int is the identity on 32-bit integers (number<int>::init returns terminal_param_t)",
                  "IEEE double arithmetic of the compiled Lean driver and of CPython equals that of g++ -O1 (no FMA "
-                 "contraction)", "g++ 12.2 ASan/UBSan"])
+                 "contraction; checked by the `laws` rows)", "g++ 12.2 ASan/UBSan"])
